@@ -95,7 +95,8 @@ type record struct {
 	err         error
 	twinOK      bool
 	twinRun     bool
-	prelude     [][]byte // what the serving process had executed before this scenario
+	prelude     [][]byte      // what the serving process had executed before this scenario
+	partial     *proto.Result // what a process that died had streamed before dying
 	twinBad     string
 	twinLogDiff bool
 }
@@ -115,9 +116,12 @@ func (d *driver) refsFor(ss *session, sc *proto.Scenario) ([][]*proto.OpResult, 
 			}
 			refs[ti][oi] = r
 			if r != nil && r.Done && !r.StepLimit {
-				lim := 10 * r.Steps
-				if lim < r.Steps+1_000_000 {
-					lim = r.Steps + 1_000_000
+				// generous multiples of the operation's own pristine cost, yet
+				// small enough that a runaway recursion is cut long before the
+				// goroutine stack limit
+				lim := 5 * r.Steps
+				if lim < r.Steps+400_000 {
+					lim = r.Steps + 400_000
 				}
 				sc.Tasks[ti][oi].StepLimit = lim
 			}
@@ -294,9 +298,14 @@ func (d *driver) executeWith(ss *session, prelude [][]byte, sc *proto.Scenario) 
 		return
 	}
 	if crashed {
-		// the whole process died: a C12 matter unless a pristine process
-		// dies on one of the same operations too
-		pristineDies := false
+		// The whole process died (a Go stack overflow or a runtime fatal error
+		// cannot be recovered). Not a C12 matter if a pristine process dies on
+		// one of the same operations too. Otherwise the judge decides from what
+		// the worker had streamed before dying: completed operations are
+		// compared as usual; the crash itself is a consequence if an operation
+		// in flight was reading a module that somebody had altered, and an
+		// O-CRASH violation if not.
+		rec.crashed = text
 		for ti := range sc.Tasks {
 			for oi := range sc.Tasks[ti] {
 				chain := chainFor(sc, proto.Ref{Task: ti, Op: oi})
@@ -304,15 +313,15 @@ func (d *driver) executeWith(ss *session, prelude [][]byte, sc *proto.Scenario) 
 					continue
 				}
 				if _, c, _ := d.x.reference(ss, sc, chain); c {
-					pristineDies = true
+					return // deterministic crash on this input
 				}
 			}
 		}
-		rec.crashed = text
-		if !pristineDies {
-			rec.findings = []finding{{Props: []string{"C12", "C14"}, Class: "O-CRASH", Kind: "process", Task: -1, Op: -1,
-				Detail: "worker process died although every operation survives in a pristine process: " + firstLines(text, 6)}}
+		if res == nil {
+			res = &proto.Result{Crashed: true, CrashText: text}
 		}
+		rec.findings = judge(sc, res, refs, d.meta)
+		rec.partial = res
 		return
 	}
 	// attribution: when invariants were evaluated less often than after every
@@ -398,7 +407,7 @@ func main() {
 
 	d := &driver{prop: *prop, tier: *tier, verifDir: *verifDir}
 	d.seed = uint64(envInt("VERIF_SEED", 1))
-	d.x = &executor{worker: *worker, timeout: 120 * time.Second, refs: map[string]*refEntry{}}
+	d.x = &executor{worker: *worker, timeout: 300 * time.Second, refs: map[string]*refEntry{}}
 	sb, err := os.ReadFile(*sitesPath)
 	if err != nil {
 		fail2("cannot read %s: %v", *sitesPath, err)
